@@ -189,12 +189,30 @@ def run_hypothesis(acc, body, strategy, max_examples, seed, rounds=4, stateful_s
         try:
             test()
         except Violation as v:
-            acc.violation(v)
-            ignored.add(v.sig)
-            remaining -= counter['n']
-            remaining = max(remaining, max_examples // 4)
-            continue
-        break
+            found = v
+        except BaseException as e:  # noqa - e.g. hypothesis Flaky/FlakyFailure groups wrapping a Violation
+            found = _find_violation(e)
+            if found is None:
+                raise
+            acc.notes.append('violation reported through %s (behaviour differed between executions of one case)' % type(e).__name__)
+        else:
+            break
+        acc.violation(found)
+        ignored.add(found.sig)
+        remaining -= counter['n']
+        remaining = max(remaining, max_examples // 4)
+
+
+def _find_violation(e, depth=0):
+    if isinstance(e, Violation):
+        return e
+    if depth > 6 or e is None:
+        return None
+    for sub in list(getattr(e, 'exceptions', ()) or ()) + [getattr(e, '__cause__', None), getattr(e, '__context__', None)]:
+        v = _find_violation(sub, depth + 1) if sub is not None else None
+        if v is not None:
+            return v
+    return None
 
 
 def shard_seed(seed, *parts):
